@@ -176,14 +176,16 @@ def gen_text(tier, seed):
                     seen.add(key)
                     cases.append({"w": make_wallet(seed, pool, m, n, net, acct, ver, path), "perms": perms})
 
-                # base origin path: every account class x every version assignment, all n! orders
+                full = thorough and pool == "A"
+                # base origin path: account classes x version assignments, all n! supply orders
                 for acct in ACCTS:
-                    for ver in vers if (thorough and pool == "A") or acct == "0" else ["std"]:
-                        add(acct, ver, "h", "all")
-                # other path styles x version assignments
-                for acct in (("0", "max-1") if thorough and pool == "A" else ("0",)):
-                    for ver in vers:
-                        for path in PATHS:
+                    for ver in vers if (full or acct == "0") else ["std"]:
+                        add(acct, ver, "h", "all" if n <= 5 or (full and acct in ("0", "mixed")) else "rot")
+                # other path styles (x version assignments: thorough everywhere, quick on two shapes)
+                product = full or (m, n) in ((1, 2), (2, 3))
+                for acct in ("0", "max-1") if full else ("0",):
+                    for path in PATHS:
+                        for ver in vers if product else ["std"]:
                             add(acct, ver, path, "all" if n <= 4 else "rot")
     return cases
 
@@ -273,12 +275,12 @@ def gen_address(tier, seed):
     for m, n in mn_pairs(nmax):
         for net in ("testnet", "mainnet"):
             combos = [("0", "std", "h", IDX_FULL if thorough else IDX_QUICK)]
-            if thorough or net == "testnet":
+            if thorough or (net == "testnet" and (m, n) in ((1, 1), (1, 2), (2, 3), (3, 4))):
                 combos += [(a, "std", "h", IDX_QUICK) for a in ("1", "max-1", "max", "mixed")]
-            if thorough or net == "mainnet":
+            if thorough or (net == "mainnet" and (m, n) in ((1, 2), (2, 3))):
                 combos += [("0", "multisig:last", "apos", IDX_QUICK)]
             if thorough:
-                combos += [("mixed", "segwit:all", "long", IDX_QUICK), ("0", "std", "h", IDX_QUICK)]
+                combos += [("mixed", "segwit:all", "long", IDX_QUICK)]
             done = set()
             for pool in ("A", "B") if thorough else ("A",):
                 for acct, ver, path, idxs in combos:
